@@ -119,6 +119,11 @@ impl SubSpecImpl for Interval<R> {
 //@| ensures r == rel_ii(*self, *reference),
 //@endimpl
 
+//@impl src/interval.rs impl<T: PartialOrd + Sub<Output = T> + num_traits::Zero + Clone> Interval<T> mono=T => impl Interval<R>
+//@fn width ret r vis pub
+//@| ensures match *self { Interval::TwoSided(l, h) => r is Some && r->Some_0.v() == h.v() - l.v(), _ => r is None },
+//@endimpl
+
 proof fn canary_must_fail() ensures false {}
 } // mod code
 } // verus!
